@@ -591,12 +591,18 @@ func (c *Cluster) Install(term int64, leader string, rf int, heads map[string]He
 
 // Rejoin fences a straggler in the current term and attaches it to the leader.
 func (c *Cluster) Rejoin(term int64, leader string, n *Node) error {
+	_, err := c.RejoinHead(term, leader, n)
+	return err
+}
+
+// RejoinHead is Rejoin that also returns the head the node reported when it was fenced.
+func (c *Cluster) RejoinHead(term int64, leader string, n *Node) (Head, error) {
 	res, err := n.NewTerm(&proto.NewTermRequest{Namespace: Namespace, Shard: c.Shard, Term: term,
 		Options: &proto.NewTermOptions{EnableNotifications: c.Notif}})
 	if err != nil {
-		return err
+		return Head{}, err
 	}
 	_, err = c.Node(leader).AddFollower(&proto.AddFollowerRequest{Namespace: Namespace, Shard: c.Shard, Term: term,
 		FollowerName: n.Name, FollowerHeadEntryId: res.HeadEntryId})
-	return err
+	return Head{Term: res.HeadEntryId.Term, Offset: res.HeadEntryId.Offset}, err
 }
